@@ -32,9 +32,12 @@ func (registry *AddressesRegistry) VerifRegistered() []string {
 	return addresses
 }
 
-// VerifPendingRemovals returns a copy of the pending-removal list, in order.
+// VerifPendingRemovals returns a copy of the pending-removal list, in order (nil stays nil).
 func (registry *AddressesRegistry) VerifPendingRemovals() []string {
 	registry.removedMutex.RLock()
 	defer registry.removedMutex.RUnlock()
-	return append([]string(nil), registry.removedAddresses...)
+	if registry.removedAddresses == nil {
+		return nil
+	}
+	return append([]string{}, registry.removedAddresses...)
 }
